@@ -40,7 +40,7 @@ Theorem C09_dial_answered : forall s t n i, tlookup (thr s) t = Some (DialWait n
 Proof. exact (dial_answered gen_mux_params). Qed.
 
 (* the two defects of the pinned tree, on the model with the corresponding facts off *)
-Definition old_params := {| drain_has_default := false; run_closes_dropped := false |}.
+Definition old_params := {| drain_has_default := false; run_closes_dropped := false; sender_waits_ack := true; taker_timeout_deletes := true; expiry_drains := true |}.
 (* Run = thread 0; two unaccepted dials to id 7 = threads 1, 2; the second park is dropped; both expire *)
 Definition double_dial : list label :=
   [Call OpRun; Call (OpDial 7%N); Call (OpDial 7%N); Step 0; Step 0; Fire 3; Step 3; Step 3; Fire 4; Step 4].
@@ -50,9 +50,9 @@ Example C09_refuted_on_old_code_wedge :
 Proof. eexists. split; [vm_compute; reflexivity|split; vm_compute; reflexivity]. Qed.
 (* with only the drain fixed, the second dialer's stream is still orphaned: not parked, not taken, not closed *)
 Example C09_refuted_on_old_code_orphan :
-  match run {| drain_has_default := true; run_closes_dropped := false |} init double_dial with
+  match run {| drain_has_default := true; run_closes_dropped := false; sender_waits_ack := true; taker_timeout_deletes := true; expiry_drains := true |} init double_dial with
   | Some s => nth_error (closed s) 1 = Some false /\ nth_error (takers s) 1 = Some None /\
-              nth_error (acks s) 1 = Some None /\ step {| drain_has_default := true; run_closes_dropped := false |} s (Step 2) = None
+              nth_error (acks s) 1 = Some None /\ step {| drain_has_default := true; run_closes_dropped := false; sender_waits_ack := true; taker_timeout_deletes := true; expiry_drains := true |} s (Step 2) = None
   | None => False
   end.
 Proof. vm_compute. repeat split; reflexivity. Qed.
